@@ -93,8 +93,9 @@ func c01(args []string) {
 		if exp.Err != "" {
 			c.Broken("reference cannot evaluate topology " + s.Name + ": " + exp.Err)
 		}
-		bh := vproto.Behaviours{}
+		bh := gen.TopoBehav(tc.kind, exp)
 		probesFor(root, exp, bh)
+		exp = ref.Eval(&ref.Input{Spec: s, Files: sourcesOf(s), Behav: bh})
 		res := execSpec(c, root, s, Cfg{Buf: 128, Procs: 4}, bh, false, 0)
 		ti := mon.Index(res.Trace)
 		ps := mon.Atomicity(root, mon.SnapRoot(root), exp, ti, preRootSet(root, s))
@@ -186,7 +187,7 @@ func c01(args []string) {
 		defer c.Drop(root)
 		s := gen.Topo(fc.tc.kind, fc.tc.shape, fc.tc.gof, root, fc.tc.n)
 		exp := evalRef(s, nil)
-		bh := vproto.Behaviours{}
+		bh := gen.TopoBehav(fc.tc.kind, exp)
 		probesFor(root, exp, bh)
 		if fc.key != "" {
 			if bh[fc.key] == nil {
